@@ -41,10 +41,33 @@ R2 = {
  "C20-A": ("C20", False, "identity-constraint documents (Identity.tla, constraint on the root or on the intermediate element) under 5 path selections"),
  "C20-B": ("C20", False, "global declarations that share names with local ones in the Validator schema; wildcard-terminated paths (.../*); also caught by C06 (lazy)"),
 }
+R3 = {   # round 3: source files mutA / mutB of the worktree, recorded as <id>-C / <id>-D
+ "C01-C": ("C01", False, "ContentModel.tla family Zero: a prohibited group (maxOccurs=0) as first particle, rendered in element-only and in mixed complex types (exposed and repaired F-C01-zero on the way)"),
+ "C01-D": ("C01", True, ""),
+ "C03-C": ("C03", True, ""), "C03-D": ("C03", True, ""),
+ "C04-C": ("C04", False, "Validator.tla: child memo with mixed content and a fixed value, deviation badmemo (two-fault pool documents are all judged by C04)"),
+ "C04-D": ("C04", False, "AttrDefs.tla name nU (target namespace, no global declaration); the core wildcard cases of the attribute pool are always judged by C04 (also caught by C03)"),
+ "C05-C": ("C05", False, "Converters.tla: element alt whose XSD 1.1 type alternative reads a boolean attribute; C05 runs both schema versions"),
+ "C05-D": ("C05", True, ""),
+ "C08-C": ("C08", False, "XSD 1.1 rows typed by a type alternative (fields untyped in the declared type)"),
+ "C08-D": ("C08", True, ""),
+ "C09-C": ("C09", False, "XSD 1.1 default attribute group placed anywhere among the documents; the quick stride was a multiple of 3, so the quick tier never split the declarations over several documents - now coprime"),
+ "C09-D": ("C09", True, ""),
+ "C12-C": ("C12", True, ""), "C12-D": ("C12", True, ""),
+ "C16-C": ("C16", False, "chains replayed with operands from a schema with another target namespace (exposed F-C16-d, repaired, and F-C16-cross, witness-listed)"),
+ "C16-D": ("C16", True, ""),
+ "C17-C": ("C17", True, ""), "C17-D": ("C17", True, ""),
+ "C19-C": ("C19", True, ""),
+ "C19-D": ("C19", False, "documents as text with namespaces declared on inner elements; every error path resolved with the namespace map the error itself carries"),
+}
+SRC = {}
 if len(sys.argv) > 1 and sys.argv[1] == "2":
     R = R2
+if len(sys.argv) > 1 and sys.argv[1] == "3":
+    R = R3
+    SRC = {k: k[:-1] + {"C": "A", "D": "B"}[k[-1]] for k in R3}
 for mid, (chk, first, how) in R.items():
-    pid, v = mid.split("-")
+    pid, v = SRC.get(mid, mid).split("-")
     src = pathlib.Path(f"/tmp/mut/{pid}/out")
     dst = pathlib.Path(f"/verif/seeded/{mid}"); dst.mkdir(parents=True, exist_ok=True)
     shutil.copy(src / f"mut{v}.diff", dst / "patch.diff")
